@@ -110,7 +110,8 @@ type tracer struct {
 	snapDel sync.Mutex              // a delete and a snapshot-writing operation never overlap
 	gap     int                     // upper bound of the pause between two operations of a goroutine (ms)
 	start   time.Time
-	stress  bool // no pauses between the operations (race monitor; such traces are too long to be validated)
+	closing atomic.Bool // the closer is about to call Shard.Close
+	stress  bool        // no pauses between the operations (race monitor; such traces are too long to be validated)
 	commits atomic.Int64
 }
 
@@ -163,6 +164,9 @@ func (t *tracer) worker(th string, rng *rand.Rand, nops int, closer bool, lead i
 			if el := time.Since(t.start); el > 600*time.Millisecond && el < 1750*time.Millisecond && x >= 68 && x < 80 || x >= 87 && x < 94 && el > 600*time.Millisecond {
 				x = rng.Intn(68)
 			}
+		}
+		if t.closing.Load() && !closer {
+			x = 0
 		}
 		switch {
 		case x < 38: // write
@@ -256,6 +260,15 @@ func (t *tracer) worker(th string, rng *rand.Rand, nops int, closer bool, lead i
 		}
 	}
 	if closer {
+		// writes race the Close: from now on the other goroutines only write, and Close fires together with their next burst
+		t.closing.Store(true)
+		if t.stress {
+			time.Sleep(time.Millisecond)
+		} else {
+			period := time.Duration(t.gap) * time.Millisecond / 2
+			el := time.Since(t.start)
+			time.Sleep((el/period+1)*period - el + time.Duration(rng.Intn(2000))*time.Microsecond)
+		}
 		t.call(th, "close", nil)
 		err := t.env.sh.Close()
 		t.ret(th, "close", err, nil)
@@ -441,7 +454,7 @@ func recordMain(args []string) {
 		nthreads := *tmin + meta.Intn(*tmax-*tmin+1)
 		busy.Store(true)
 		lg.last.Store(time.Now().UnixNano())
-		err = t.run(*seed*7919+int64(i), nthreads, *ops, meta.Float64() < *closeConc)
+		err = t.run(*seed*7919+int64(i), nthreads, *ops, meta.Float64() < *closeConc || *stress)
 		busy.Store(false)
 		cur.Store(nil)
 		os.RemoveAll(root)
